@@ -463,11 +463,17 @@ pub fn run_evaluate(rep: &mut Report, driver: &str, workers: usize, thorough: bo
             push("evaluate(&T) must not panic", "C09 evaluate panic", model_vals);
         } else if direct != via {
             push("passing a serializable input gives the same outcomes as passing its serialized value; the call fails only when serialization fails", "C09 evaluate-vs-evaluate_value", &via);
-        } else if direct != model_vals {
+        } else if direct != model_vals && impl_serialize(v) == model_ser(v, driver) {
+            // the serializer agrees with its model (C13's business otherwise) but the outcomes do not
             push("outcomes must equal the model's", "C09 evaluate model", model_vals);
         }
     }
     rep.streams.push(sr);
+}
+
+fn model_ser(v: &SerVal, driver: &str) -> String {
+    let mut d = crate::driver::Driver::spawn(driver).expect("driver");
+    d.one(&format!("ser\t{}", enc_serval(v)))
 }
 
 fn clone_err(e: &reval::Error) -> reval::Error {
